@@ -250,7 +250,13 @@ DomainOfTree(x) ==
                THEN Section1(x, "domain").c[2].v ELSE "#bad"
       types == IF HasSection(x, ":types") THEN TypedList(Rest(Section1(x, ":types"))) ELSE <<>>
       consts == IF HasSection(x, ":constants") THEN TypedList(Rest(Section1(x, ":constants"))) ELSE <<>>
-      preds == IF HasSection(x, ":predicates") THEN [i \in DOMAIN Rest(Section1(x, ":predicates")) |-> DeclOfTree(Rest(Section1(x, ":predicates"))[i])] ELSE <<>>
+      \* MA-PDDL: (:private decl*) inside :predicates contributes its declarations
+      predItems == IF HasSection(x, ":predicates")
+                   THEN FlattenSeq([i \in DOMAIN Rest(Section1(x, ":predicates")) |->
+                          LET it == Rest(Section1(x, ":predicates"))[i]
+                          IN  IF HeadSym(it) = ":private" THEN SelectSeq(Rest(it), IsList) ELSE <<it>>])
+                   ELSE <<>>
+      preds == [i \in DOMAIN predItems |-> DeclOfTree(predItems[i])]
       funcs == IF HasSection(x, ":functions") THEN [i \in DOMAIN Rest(Section1(x, ":functions")) |-> DeclOfTree(Rest(Section1(x, ":functions"))[i])] ELSE <<>>
       acts  == Sections(x, ":action")
   IN [ok      |-> HeadSym(x) = "define",
@@ -321,7 +327,12 @@ GoalOfTree(x) ==
       cmps |-> {FormulaOfTree(items[i]) : i \in C}]
 
 ProblemOfTree(x) ==
-  LET objs == IF HasSection(x, ":objects") THEN TypedList(Rest(Section1(x, ":objects"))) ELSE <<>>
+  LET \* MA-PDDL: (:private name* - type ...) inside :objects contributes its objects
+      objToks == IF HasSection(x, ":objects") THEN Rest(Section1(x, ":objects")) ELSE <<>>
+      objs == TypedList(SelectSeq(objToks, LAMBDA tk : ~IsList(tk)))
+              \o FlattenSeq([i \in DOMAIN SelectSeq(objToks, IsList) |->
+                    LET it == SelectSeq(objToks, IsList)[i]
+                    IN  IF HeadSym(it) = ":private" THEN TypedList(Rest(it)) ELSE <<<<"#bad", "#bad">>>>])
       init == IF HasSection(x, ":init") THEN Rest(Section1(x, ":init")) ELSE <<>>
       goal == IF HasSection(x, ":goal") /\ Len(Section1(x, ":goal").c) = 2 THEN Section1(x, ":goal").c[2] ELSE Li(<<Sy("and")>>)
   IN [ok     |-> HeadSym(x) = "define",
